@@ -691,6 +691,8 @@ def r12_errors_are_not_unwrapped(cx):
             continue
         if re.search(r"SeekableDecoder::new::\{closure", f["name"]):
             continue       # the pool task: R1
+        if re.search(r" as graphex::|_serde::Serialize>::|_serde::Deserialize", f["name"]):
+            continue       # the `explorable` feature (dump / explore tooling of the jbk binary), like the other rules
         b = None
         for i, blk in enumerate(f["blocks"]):
             t = blk["t"]
